@@ -223,9 +223,15 @@ class Pool:
                 q.convert_representation(rep)
             self.objs["target_" + rep] = q
         # noise maps
-        self.objs["noise_map"] = {"e": {"Hadamard": nm.DepolarizingNoise(0.1), "SigmaX": nm.PauliError("Z")}, "p": {"Phase": nm.PauliError("X")},
-                                  "ee": {"CNOT": nm.DepolarizingNoise(0.05)}, "ep": {"CNOT": [nm.DepolarizingNoise(0.02), nm.PauliError("Y")],
-                                                                                      "MeasurementCNOTandReset": nm.NoNoise()},
+        def placed(noise, after):
+            noise.noise_parameters["After gate"] = after
+            return noise
+        # noise before and after the gate, and pairs with different positions on one two-qubit gate
+        self.objs["noise_map"] = {"e": {"Hadamard": placed(nm.DepolarizingNoise(0.1), bool(rng.integers(2))), "SigmaX": nm.PauliError("Z")},
+                                  "p": {"Phase": placed(nm.PauliError("X"), False)},
+                                  "ee": {"CNOT": [placed(nm.DepolarizingNoise(0.05), True), placed(nm.PauliError("Z"), False)]},
+                                  "ep": {"CNOT": [placed(nm.DepolarizingNoise(0.02), False), placed(nm.PauliError("Y"), True)],
+                                         "MeasurementCNOTandReset": nm.NoNoise()},
                                   "pe": {}, "pp": {}}
         mc = McNoiseMap()
         mc.add_gate_noise("e", "Hadamard", [(nm.PauliError("X"), 0.3)])
@@ -302,6 +308,10 @@ def do_call(pool, name, rng, ctx):
         return f"{ck}.assign_noise(noise_map)"
     if name == "monte_carlo":
         from graphiq.noise.monte_carlo_noise import MonteCarloNoise
+        # Monte-Carlo noise is defined for a noise-free circuit: the noisy derived copies are not given to it
+        originals = [k for k in circs if k.startswith("circuit")]
+        ck = originals[int(rng.integers(len(originals)))]
+        c = pool.objs[ck]
         mc = MonteCarloNoise(c, n_sample=2, mc_noise_model=pool.objs["mc_map"], compiler=m["StabilizerCompiler"](), seed=int(rng.integers(100)))
         if rng.random() < 0.5:
             mc.run()
